@@ -30,7 +30,7 @@ def nrun (b : Bool) : QSt → List Tok → NR
       | .cont q' => nrun b q' ts
       | .unsupported => .unsupported
       | .noMatch => if q.stopIf then .saved q.toMQ t ts else .bad
-      | .missing => if q.stopIf then .pushed q.toMQ t ts else .bad
+      | .missing => .bad      -- an error also with `stopIfNoMoreMatch` (since ed45313); nothing is pushed back
 
 def NR.toP (ft : Bool) : NR → POut (MQ × Src)
   | .bad => .bad
@@ -44,7 +44,7 @@ theorem nrun_sig (b : Bool) (q : QSt) (t : Tok) (ts : List Tok) (h : t.typ.speci
       | .cont q' => nrun b q' ts
       | .unsupported => .unsupported
       | .noMatch => if q.stopIf then .saved q.toMQ t ts else .bad
-      | .missing => if q.stopIf then .pushed q.toMQ t ts else .bad := by
+      | .missing => .bad := by
   cases ht : t.typ <;> simp [ht, TT.special] at h <;> simp only [nrun, ht]
 
 /-- the tail of `parse` after the main loop (`prodparser.py:645-693`) -/
@@ -263,13 +263,7 @@ theorem run_sim (b ft : Bool) : ∀ (ts : List Tok) (c : Cf) (q : QSt) (l : Loop
       | missing =>
         rw [hst] at hfol
         rw [first_missing (hs := hsig) (hd := hfol)]
-        simp only [h.stopIf]
-        cases hsi : q.stopIf with
-        | false =>
-          simp [summ, parseTail, endLoop_false, h.stopall, NR.toP]
-        | true =>
-          have := toMQ_of_rq b c q l ⟨ts, ft, [t], []⟩ true h
-          simp [summ, parseTail, h.wf, NR.toP, this]
+        simp [summ, parseTail, endLoop_false, h.stopall, NR.toP]
 
 /-! ## stand-alone query: `engineQ` on the captured grammar = `parseQ` -/
 
